@@ -246,6 +246,8 @@ func kfArrayRange(args []KeyBuilderStage) (KeyBuilderStage, error) {
 		return stageErrArgRange(args, "1-3")
 	}
 
+	const MAX_ITERATIONS = 1_000_000
+
 	return func(context KeyBuilderContext) string {
 		start, err := strconv.Atoi(sStart(context))
 		if err != nil {
@@ -274,11 +276,17 @@ func kfArrayRange(args []KeyBuilderStage) (KeyBuilderStage, error) {
 		}
 
 		var sb strings.Builder
+		count := 0
 		for i := start; (incr > 0 && i < stop) || (incr < 0 && i > stop); i += incr {
 			if sb.Len() > 0 {
 				sb.WriteRune(ArraySeparator)
 			}
 			sb.WriteString(strconv.Itoa(i))
+
+			count++
+			if count > MAX_ITERATIONS { // Prevent memory-crash, as in @for
+				return "<INF>"
+			}
 
 			// The next value would overflow int (and so is beyond stop as well)
 			if (incr > 0 && i > math.MaxInt-incr) || (incr < 0 && i < math.MinInt-incr) {
